@@ -350,22 +350,42 @@ impl Env {
                     .stack_size(256 << 20)
                     .spawn_scoped(sc, move || {
                         let mut local = SubStats::default();
+                        let batch = share.min(256).max(1);
                         let cfg = Config {
-                            cases: share as u32,
+                            cases: batch as u32,
                             failure_persistence: None,
                             max_shrink_iters: self.shrink_iters.load(Ordering::Relaxed) as u32,
                             max_local_rejects: 1 << 30,
                             max_global_rejects: 1 << 30,
                             ..Config::default()
                         };
-                        let rng = TestRng::from_seed(
-                            RngAlgorithm::ChaCha,
-                            &mix_seed(self.seed, &format!("{}/{}", self.prop, name), w),
-                        );
-                        let mut runner = TestRunner::new_with_rng(cfg, rng);
+                        let mk_runner = |batch_no: u64| {
+                            let rng = TestRng::from_seed(
+                                RngAlgorithm::ChaCha,
+                                &mix_seed(self.seed, &format!("{}/{}#{}", self.prop, name, batch_no), w),
+                            );
+                            TestRunner::new_with_rng(cfg.clone(), rng)
+                        };
+                        let mut batch_no = 0u64;
                         let failed_once = std::cell::Cell::new(false);
                         let local_cell = std::cell::RefCell::new(&mut local);
-                        let res = runner.run(&strat(), |case| {
+                        let strategy = strat();
+                        let mut remaining = share;
+                        let mut res = Ok(());
+                        while remaining > 0 && !stop.load(Ordering::Relaxed) {
+                            // the last batch may overshoot by less than one batch; cases beyond
+                            // the worker's share are not executed
+                            let quota = std::cell::Cell::new(remaining.min(batch));
+                            remaining -= remaining.min(batch);
+                            let mut runner = mk_runner(batch_no);
+                            batch_no += 1;
+                            res = runner.run(&strategy, |case| {
+                            if quota.get() == 0 && !failed_once.get() {
+                                return Ok(());
+                            }
+                            if !failed_once.get() {
+                                quota.set(quota.get() - 1);
+                            }
                             if stop.load(Ordering::Relaxed) && !failed_once.get() {
                                 // another worker failed: finish quickly
                                 return Ok(());
@@ -390,16 +410,26 @@ impl Env {
                                 done.fetch_add(1, Ordering::Relaxed);
                             }
                             if out.is_fail() {
-                                failed_once.set(true);
+                                if !failed_once.get() {
+                                    // only the first failing worker shrinks and reports
+                                    if stop.swap(true, Ordering::SeqCst) {
+                                        return Ok(());
+                                    }
+                                    failed_once.set(true);
+                                }
                                 Err(TestCaseError::fail(format!("{}|{}", out.sig, out.msg)))
                             } else {
                                 Ok(())
                             }
                         });
+                            if res.is_err() {
+                                break;
+                            }
+                        }
                         if let Err(e) = res {
                             match e {
                                 TestError::Fail(_, minimal) => {
-                                    if !stop.swap(true, Ordering::SeqCst) {
+                                    {
                                         let out = match crate::util::catch(|| oracle(&minimal)) {
                                             Ok(o) => o,
                                             Err(p) => Outcome::fail(
